@@ -206,11 +206,17 @@ def run_pandas_seq(cols, ops, on_step=None):
     res, done = [], []
     for op in ops:
         done.append(op)
+        src, src_state = df, (type(df).__name__, getattr(df, '_geometry', None), [str(c) for c in df.columns])
         try:
             df = U.apply_pop(df, op)
         except Exception as e:
             op['_raised'] = f'{type(e).__name__}: {str(e)[:80]}'
             res.append(None)
+            return res, done, None
+        if df is not src and (type(src).__name__, getattr(src, '_geometry', None),
+                              [str(c) for c in src.columns]) != src_state:
+            op['_changed_source'] = True
+            res.append(('badtype', f'{op["op"]} changed the frame it was applied to'))
             return res, done, None
         o = U.observe(df)
         res.append(o if U.is_bad(o) else C.Some(o))
@@ -391,6 +397,92 @@ def check_uses_dask(rep, ddf, frames, meta):
                           {**meta, 'got': gotp, 'want': wantp})
 
 
+def check_provenances(rep, cols, target, tmp, tag):
+    """A Dask frame whose partitions are CONCRETE, re-used objects (persist(), from_delayed over
+    existing GeoDataFrames) next to those re-created per compute (from_pandas, read_parquet_dask):
+    derive a child with set_geometry / cx / build_sindex, compute the child, then look at the
+    parent again (meta, every partition, compute(), the rows cx selects) and at the caller's own
+    pandas frames."""
+    import dask
+    import dask.dataframe as dd
+    from spatialpandas import GeoDataFrame
+    from spatialpandas.io import read_parquet_dask
+    rng = rep.rng
+    gnames = [n for n, k, _ in cols if k is not None]
+    others = [g for g in gnames if g != target]
+    if not others:
+        return
+    df = GeoDataFrame(U.build_dict(cols)).set_geometry(target)
+    path = os.path.join(tmp, f'prov{tag}.parq')
+    dd.from_pandas(df, npartitions=3).to_parquet(path)
+
+    def make(prov):
+        """a fresh parent and the caller's own pandas frames it was built from"""
+        own = GeoDataFrame(U.build_dict(cols)).set_geometry(target)
+        parts = [own.iloc[0:3], own.iloc[3:6], own.iloc[6:8]]
+        if prov == 'from_pandas':
+            return dd.from_pandas(own, npartitions=3), [own]
+        if prov == 'persist':
+            return dd.from_pandas(own, npartitions=3).persist(scheduler='synchronous'), [own]
+        if prov == 'from_delayed':
+            return dd.from_delayed([dask.delayed(p) for p in parts], meta=own.iloc[:0]), parts + [own]
+        if prov == 'persist-of-from_delayed':
+            return dd.from_delayed([dask.delayed(p) for p in parts], meta=own.iloc[:0]).persist(
+                scheduler='synchronous'), parts + [own]
+        return read_parquet_dask(path, geometry=target), []
+
+    t0 = rng.randint(0, U.NROWS - 3)
+    box = U.box_over(t0, t0 + 2)
+    want_rows = sorted(df['v'][U.rows_in_box(df, target, box)].tolist())
+    cases, ress, metas = [], [], []
+    for prov in ('from_pandas', 'persist', 'from_delayed', 'persist-of-from_delayed', 'read_parquet_dask'):
+        derivations = [('set_geometry', h) for h in others] + [('cx', None), ('build_sindex', None)]
+        for how, h in derivations:
+            parent, own_frames = make(prov)
+            before = U.observe_dask(parent)
+            if how == 'set_geometry':
+                child = parent.set_geometry(h)
+            elif how == 'cx':
+                child = parent.cx[box[0]:box[1], box[2]:box[3]]
+            else:
+                child = parent.build_sindex()
+            oc = U.observe_dask(child)                       # computes the child
+            want_child = h if how == 'set_geometry' else target
+            after = U.observe_dask(parent)
+            try:
+                got_rows = sorted(parent.cx[box[0]:box[1], box[2]:box[3]].compute(scheduler='synchronous')['v'].tolist())
+            except Exception as e:  # noqa: BLE001
+                got_rows = f'{type(e).__name__}: {str(e)[:80]}'
+            originals = [getattr(p, '_geometry', None) for p in own_frames]
+            rep.evaluations += 1
+            rep.nontrivial(('provenance', repr(cols), prov, how, h))
+            meta = {'kind': 'provenance', 'columns': cols, 'target': target, 'provenance': prov,
+                    'derivation': [how, h], 'box': list(box), 'parent_before': before, 'parent_after': after,
+                    'child': oc, 'parent_cx_rows': got_rows, 'want_cx_rows': want_rows,
+                    'originals_geometry': originals}
+            child_ok = (not U.is_bad(oc) and oc[0][1] == C.Some(want_child)
+                        and all(p is not None and p.v[1] == C.Some(want_child) for p in oc[1]))
+            if not child_ok:
+                rep.violation(f'provenance:{how}:child', f'{prov}: the frame derived with {how} is not active on '
+                                                         f'{want_child!r} everywhere', meta)
+                continue
+            if repr(after) != repr(before) or got_rows != want_rows or any(o != target for o in originals):
+                rep.violation(f'provenance:{how}:parent',
+                              f'{prov}: deriving a frame with {how} and computing it changed the parent frame '
+                              f'(meta / partitions / cx rows) or the caller\'s own pandas frames', meta)
+                continue
+            # the parent is (still) what the model says a frame of 3 partitions active on target is
+            cases.append((U.coq_cols(cols), [U.pop_coq({'op': 'OGeoInit'}),
+                                             U.pop_coq({'op': 'OSetGeometry', 'g': target, 'inplace': False})],
+                          C.Nat(3), []))
+            ress.append(wrap_dask(after, []))
+            metas.append(meta)
+    bad = C.coq_mismatches(IMPORTS, 'run_dask', D_CASE, D_RES, cases, ress)
+    for i in bad[:2]:
+        rep.violation('provenance:state', 'the parent frame is not what the model says after a child was derived '
+                                          'and computed', metas[i])
+
+
 def check_parquet_bounds(rep, df, cols, gnames, tmp, tag):
     """a dataset of 4 partitions whose geometry columns have different per-partition extents:
     read_parquet_dask(geometry=g, bounds=box) loads exactly the partitions whose extent of g meets
@@ -550,6 +642,7 @@ def run_dask_steps(ddf, dops_spec, rep, rng, nsteps, history, layout_meta):
             nsh += 1
         done.append(op)
         op.setdefault('nout', 0)
+        parent, o_parent = ddf, o
         try:
             ddf = U.apply_dop(ddf, op)
         except Exception as e:
@@ -569,6 +662,20 @@ def run_dask_steps(ddf, dops_spec, rep, rng, nsteps, history, layout_meta):
             break
         if not U.is_bad(o) and op['op'] in SHUFFLES:
             op['nout'] = len(o[1])
+        # deriving (and computing) the child must leave the frame it was derived from as it was:
+        # its meta always, and for the repo's own methods also every partition and compute()
+        if ddf is not parent and not U.is_bad(o_parent):
+            if op['op'] in ('DSetGeometry', 'DBuildSindex', 'DCx', 'DCxPartitions', 'DPackPartitions'):
+                again = U.observe_dask(parent)
+            else:
+                again = (U.observe(parent._meta),) + tuple(o_parent[1:])
+            rep.evaluations += 1
+            if repr(again) != repr(o_parent):
+                rep.violation('dask-parent-changed:' + op['op'],
+                              f'deriving a frame with {op["op"][1:]} (and computing it) changed the frame it was '
+                              f'derived from (meta / partitions / compute())',
+                              {**(layout_meta or {}), 'dask_ops': [U.strip_private(x) for x in done],
+                               'parent_before': o_parent, 'parent_after': again})
         res.append(o if U.is_bad(o) else C.Some(o))
         if U.is_bad(o):
             break
@@ -755,7 +862,10 @@ def run(rep):
         _res, pdone, df = run_pandas_seq(cols, pops)
         want = rng.randint(1, 4)
         ddf = dd.from_pandas(df, npartitions=want)
-        first, res, done, last, frames = run_dask_steps(ddf, None, rep, rng, rng.randint(1, 5), pdone, None)
+        first, res, done, last, frames = run_dask_steps(
+            ddf, None, rep, rng, rng.randint(1, 5), pdone,
+            {'kind': 'dask', 'columns': cols, 'pandas_ops': [U.strip_private(o) for o in pdone],
+             'npartitions': ddf.npartitions})
         d_cases.append((U.coq_cols(cols), [U.pop_coq(o) for o in pdone], C.Nat(ddf.npartitions),
                         [U.dop_coq(o) for o in done]))
         d_res.append(wrap_dask(first, res))
@@ -809,7 +919,9 @@ def run(rep):
                                    'dask_ops': [], 'raised': raised, '_done': [], '_res': [], '_first': None})
                     rep.evaluations += 1
                     continue
-                first, res, done, last, frames = run_dask_steps(r, None, rep, rng, rng.randint(0, 2), [], None)
+                first, res, done, last, frames = run_dask_steps(
+                    r, None, rep, rng, rng.randint(0, 2), [],
+                    {'kind': 'parquet', 'columns': cols, 'geometry': g, 'npartitions': r.npartitions})
                 q_cases.append((U.coq_cols(cols), None if g is None else C.Some(g), C.Nat(r.npartitions),
                                 [U.dop_coq(o) for o in done]))
                 q_res.append(wrap_dask(first, res))
@@ -828,6 +940,9 @@ def run(rep):
                         check_uses_dask(rep, last, frames,
                                         {'columns': cols, 'geometry': g, 'npartitions': r.npartitions,
                                          'dask_ops': [U.strip_private(o) for o in done], 'geoms': gl})
+            # concrete / re-used partitions: deriving and computing a child leaves the parent alone
+            if len(gnames) >= 2 and s < (3 if quick else 20):
+                check_provenances(rep, cols, target, tmp, s)
             # read_parquet_dask(geometry=g, bounds=box) prunes the partitions by the recorded
             # extents of the ACTIVE column g
             if len(gnames) >= 2:
@@ -1024,7 +1139,19 @@ def replay(rep, rp):
             bad = C.coq_mismatches(IMPORTS, fn, cty, D_RES, [case], [wrap_dask(first, res)])
             print('impl :', first, res)
             print('model:', C.coq_eval(IMPORTS, f'{fn} {C.coq(case)}'))
-            return not bad
+            for v in rep.violations:
+                print('still:', v['signature'], v['what'])
+            return not bad and not rep.violations
+        finally:
+            shutil.rmtree(tmp, ignore_errors=True)
+    if kind == 'provenance':
+        tmp = tempfile.mkdtemp(prefix='sp_c20_')
+        try:
+            r2 = C.Report(rep.pid, rep.tier, rep.seed)
+            check_provenances(r2, cols, rp['target'], tmp, 0)
+            for v in r2.violations:
+                print('still:', v['signature'], v['what'])
+            return not r2.violations
         finally:
             shutil.rmtree(tmp, ignore_errors=True)
     if kind == 'parquet-bounds':
